@@ -788,11 +788,17 @@ impl StreamsState {
         id: StreamId,
         offset: u64,
     ) -> Result<(), TransportError> {
-        if id.initiator() != self.side && id.dir() == Dir::Uni {
-            debug!("got MAX_STREAM_DATA on recv-only {}", id);
-            return Err(TransportError::STREAM_STATE_ERROR(
-                "MAX_STREAM_DATA on recv-only stream",
-            ));
+        if id.initiator() != self.side {
+            if id.dir() == Dir::Uni {
+                debug!("got MAX_STREAM_DATA on recv-only {}", id);
+                return Err(TransportError::STREAM_STATE_ERROR(
+                    "MAX_STREAM_DATA on recv-only stream",
+                ));
+            }
+            if id.index() >= self.max_remote[id.dir() as usize] {
+                debug!("got MAX_STREAM_DATA on {} beyond the stream limit", id);
+                return Err(TransportError::STREAM_LIMIT_ERROR(""));
+            }
         }
 
         let write_limit = self.write_limit();
